@@ -234,12 +234,21 @@ fn sizes(ctx: &mut Ctx) {
     // although it has content. Whatever happens must be an error or a valid map (usable for its whole length) - never a
     // panic, never a map with an invalid pointer.
     if ctx.mine(3) && ctx.begin_case() && !cfg!(miri) {
-        for path in [ctx.tmpdir.clone(), "/dev/null".to_string(), "/dev/zero".to_string(), "/proc/self/status".to_string(), "/".to_string()] {
+        for path in [ctx.tmpdir.clone(), "/dev/null".to_string(), "/dev/zero".to_string(), "/proc/self/status".to_string(), "/".to_string(), "/proc/version".to_string(), "/proc/filesystems".to_string(), "/sys/kernel/ostype".to_string()] {
             for mode in [MappingMode::ReadOnly, MappingMode::Mutable] {
                 ctx.checks += 1;
-                match guard(|| MemoryMap::new(&path, mode).map(|m| { let s: &[u64] = m.as_ref(); (s.len(), s.iter().fold(0u64, |a, b| a ^ b), m.len()) })) {
+                match guard(|| MemoryMap::new(&path, mode).map(|m| { let s: &[u64] = m.as_ref(); (s.len(), s.iter().flat_map(|w| w.to_le_bytes()).collect::<Vec<u8>>(), m.len()) })) {
                     Ok(Err(_)) => ctx.count("odd_paths.refused", 1),
-                    Ok(Ok((slice_len, _, len))) => { ctx.count("odd_paths.mapped", 1); if slice_len != len { ctx.violation("map.odd_path.len", format!("MemoryMap::new({:?}, {:?}): slice of {} elements, len() = {}", path, mode, slice_len, len)); } },
+                    Ok(Ok((slice_len, bytes, len))) => {
+                        ctx.count("odd_paths.mapped", 1);
+                        if slice_len != len { ctx.violation("map.odd_path.len", format!("MemoryMap::new({:?}, {:?}): slice of {} elements, len() = {}", path, mode, slice_len, len)); }
+                        // Files whose content does not change between two reads: a granted map is the file's content.
+                        if path.starts_with("/proc/version") || path.starts_with("/proc/filesystems") || path.starts_with("/sys/") || path == "/dev/null" {
+                            if let Ok(content) = std::fs::read(&path) {
+                                if content != bytes { ctx.violation("map.odd_path.content", format!("MemoryMap::new({:?}, {:?}) returned a map of {} bytes; reading the file gives {} bytes", path, mode, bytes.len(), content.len())); }
+                            }
+                        }
+                    },
                     Err(p) => ctx.violation("map.new.odd_path!panic", format!("MemoryMap::new({:?}, {:?}) panicked: {}", path, mode, p)),
                 }
             }
